@@ -81,6 +81,22 @@ void harness (void)
     VP_ASSUME (s && g);
     pixman_image_ref (g);
     VP_ASSERT (pixman_image_unref (g) == FALSE && pixman_image_unref (g) == TRUE && pixman_image_unref (s) == TRUE, "solid / gradient released by the last unref");
+#elif SCRIPT == 8	/* a non-BITS owner releases its alpha map too */
+    pixman_color_t c = { 1, 2, 3, 4 };
+    pixman_image_t *s = pixman_image_create_solid_fill (&c), *m = mk (1, NULL);
+    VP_ASSUME (s != NULL);
+    pixman_image_set_alpha_map (s, m, ox, oy);
+    VP_ASSERT (pixman_image_unref (m) == FALSE && destroyed[1] == 0, "map kept alive by the solid owner");
+    VP_ASSERT (pixman_image_unref (s) == TRUE && destroyed[1] == 1, "the solid owner's death releases the map exactly once");
+#elif SCRIPT == 9	/* re-attaching the same map (new origin) while the owner holds the only reference */
+    pixman_image_t *a = mk (0, NULL), *m = mk (1, NULL);
+    pixman_image_set_alpha_map (a, m, 0, 0);
+    VP_ASSERT (pixman_image_unref (m) == FALSE, "caller drops its reference; the attachment keeps the map");
+    pixman_image_set_alpha_map (a, m, ox, oy);
+    VP_ASSERT (destroyed[1] == 0 && a->common.alpha_map == &m->bits && m->common.ref_count == 1 && m->common.alpha_count == 1, "re-attaching the same map neither frees nor leaks it");
+    m->bits.bits[0] = 3;
+    VP_ASSERT (a->common.alpha_origin_x == ox && a->common.alpha_origin_y == oy, "new origin in force");
+    VP_ASSERT (pixman_image_unref (a) == TRUE && destroyed[0] == 1 && destroyed[1] == 1, "released once");
 #endif
     VP_END ();
 }
